@@ -212,6 +212,9 @@ func readTabixHeader(r io.Reader, idx *Index) error {
 	if err != nil {
 		return fmt.Errorf("tabix: failed to read name lengths: %w", err)
 	}
+	if n <= 0 {
+		return fmt.Errorf("tabix: invalid name lengths: %d", n)
+	}
 	nameBytes := make([]byte, n)
 	_, err = io.ReadFull(r, nameBytes)
 	if err != nil {
